@@ -33,6 +33,7 @@ pub struct HUser {
     pub n_with: usize,
     pub n_take: usize,
     pub n_ext: usize,
+    pub n_badkey: usize,
     pub last_ext: Vec<String>,
     pub probes: Vec<String>,
 }
@@ -50,6 +51,9 @@ impl User for HUser {
         extension: &SMap<Self, EE>,
     ) -> SResult<Self, EE> {
         state.user_state.n_ext += 1;
+        // every reported binding must be an entry of the substitution the hook sees (the variable that was actually bound)
+        let bad = extension.iter().filter(|(k, t)| state.smap_ref().get(*k) != Some(*t)).count();
+        state.user_state.n_badkey += bad;
         let mut v: Vec<String> = extension.iter().map(|(_k, t)| shape(t)).collect();
         v.sort();
         state.user_state.last_ext = v;
@@ -545,13 +549,14 @@ pub fn build<G: K>(defs: &Defs, env: &Env, e: &Sexp) -> G {
                     FnGoal::new::<G>(Box::new(move |_solver: &Solver<U, E>, state: State<U, E>| {
                         let n = state.cstore_ref().iter().count();
                         let line = format!(
-                            "(probe {} {} {} {} {} ({}))",
+                            "(probe {} {} {} {} {} ({}) {})",
                             tag,
                             state.user_state.n_with,
                             state.user_state.n_take,
                             n,
                             state.user_state.n_ext,
-                            state.user_state.last_ext.join(" ")
+                            state.user_state.last_ext.join(" "),
+                            state.user_state.n_badkey
                         );
                         let mut state = state;
                         state.user_state.probes.push(line);
